@@ -17,6 +17,10 @@ Sub-checks
   seed_haplotag   run_haplotag with 2-3 samples: compute_variant_file_samples_to_use / compute_shared_samples (sets),
                   per-sample loop, barcode clouds (sets of Read objects)
   seed_stats, seed_unphase, seed_split   the commands that hardly use sets, one pass each under NSet shadows
+  repeat          "repetition": what the output paths hold before a run (left over from an earlier run of the same command,
+                  solver-chosen per path) must not influence what they hold afterwards: stats (--tsv/--block-list/--gtf),
+                  phase (--output-read-list/--recombination-list/--changed-genotype-list), learn (-o; the compiled
+                  Caller appends to the file, run_learn has to empty it first)
 
 In the new sub-checks one permutation is chosen per distinct set content and run (`_memo_hook`).  Dict iteration is
 insertion-ordered in Python and is not a source of nondeterminism by itself (it only forwards the order of what was
@@ -59,21 +63,44 @@ def vcf_text(sample, phases):
 
 
 class MemFS:
+    """In-memory text files behind the builtin open() of a command module.  Modes as in Python: "w" truncates at open
+    (even if nothing is written afterwards), "a" continues after what the path already holds, "x" refuses an existing path,
+    "r" reads.  PRE: what the paths hold before the command starts (sub-check `repeat`: left over from an earlier run)."""
+
+    PRE = {}
+
     def __init__(self):
-        self.files = {}
+        self.files = dict(MemFS.PRE)
 
     def open(self, path, mode="r", *a, **k):
-        fs = self
+        fs, key = self, str(path)
+        existing = fs.files.get(key)
+        if "b" in mode:
+            raise IOError("MemFS: binary mode is not modelled")
+        if "r" in mode:
+            if existing is None:
+                raise FileNotFoundError(key)
+            return io.StringIO(existing)
+        if "x" in mode and existing is not None:
+            raise FileExistsError(key)
 
         class F(io.StringIO):
+            def flush(s):
+                fs.files[key] = s.getvalue()
+
             def close(s):
-                fs.files[str(path)] = s.getvalue()
+                if not s.closed:
+                    fs.files[key] = s.getvalue()
                 io.StringIO.close(s)
 
             def __exit__(s, *x):
                 s.close()
 
-        return F()
+        f = F()
+        if "a" in mode and existing is not None:
+            f.write(existing)
+        fs.files[key] = f.getvalue()
+        return f
 
 
 class SeedCompare(SubCheck):
@@ -1557,3 +1584,228 @@ class SeedSplit(_SmallSeedCheck):
 
 for _c in (SeedStats(), SeedUnphase(), SeedSplit()):
     SUBCHECKS[_c.name] = _c
+
+
+# =====================================================================================================================
+# repeat: a second run to the same output paths gives the same files (the pre-state of the file system is symbolic)
+# =====================================================================================================================
+STALE_TEXT = "left over from an earlier run\n"
+
+
+def _caller_open_mode():
+    """how the compiled k-mer caller (src/caller.cpp) opens the file it is told to write to: read from the current source"""
+    import re
+
+    src = open(os.path.join(REPO, "src", "caller.cpp")).read()
+    modes = set(re.findall(r"writer\.open\(\s*outfile\s*(?:,\s*([^)]*))?\)", src))
+    if not modes:
+        raise RuntimeError("src/caller.cpp: no writer.open(outfile...) found - the Caller model of the `repeat` sub-check needs updating")
+    return "a" if all("ios::app" in (m or "") for m in modes) else "w"
+
+
+class Repeat(_SmallSeedCheck):
+    name = "repeat"
+    encoded = ["whatshap.cli.stats.run_stats", "whatshap.cli.phase.run_whatshap (ReadList, write_changed_genotypes, write_recombination_list and the file handling around them)", "whatshap.cli.learn.run_learn"]
+    sources = ["whatshap/cli/stats.py", "whatshap/cli/phase.py", "whatshap/cli/learn.py", "src/caller.cpp"]
+    stubs = ["as seed_stats / seed_phase for those commands; open() of the command module -> checks/c16.py MemFS (modes r/w/a/x as in Python, truncation at open)",
+             "learn: pysam.VariantFile / AlignmentFile and pyfaidx.Fasta are small in-memory stand-ins; whatshap.core.Caller is a model that writes one line per add_read()/final_pop() to the path it is given, "
+             "opened in the mode src/caller.cpp uses (re-read from the source on every run: ios::app -> append)",
+             "replay: the real CLI is run into a fresh directory and into one whose output paths already hold a file; the resulting files are compared (learn: on tests/data/short-genome/learn-data)"]
+    assumptions = ["the earlier run's files are ordinary text files at the output paths given on the command line; nothing else of the environment differs between the two runs",
+                   "learn: the first alignment of the BAM is mapped (run_learn raises UnboundLocalError on a BAM without mapped alignments - a crash, the same on every run)"]
+    required_cover = ["a pre-existing output file", "no pre-existing file", "stats", "phase", "learn", "learn: alignment skipped", "learn: the caller wrote to the output"]
+    replay_every = 1
+    FILES = {  # command -> [(name in the stub world, name in the real output directory)]
+        "stats": [("tsv", "tsv"), ("bl", "bl"), ("gtf", "gtf")],
+        "phase": [("reads.tsv", "reads.tsv"), ("recomb.tsv", "recomb.tsv"), ("gtchanges.tsv", "gtchanges.tsv")],
+        "learn": [("kmers.txt", "kmers.txt")],
+    }
+
+    def shapes(self, tier):
+        out = [dict(cmd="stats", chromosomes=None), dict(cmd="learn", nreads=1), dict(cmd="learn", nreads=2), dict(cmd="phase", fam="trio", nchrom=2, use_ped=False, distrust=True)]
+        if tier != "quick":
+            out += [dict(cmd="learn", nreads=3), dict(cmd="phase", fam="quartet", nchrom=1, use_ped=False, distrust=False), dict(cmd="stats", chromosomes=["chr2", "chr1"])]
+        return out
+
+    def bounds(self, tier):
+        return ("stats on the seed_stats input, phase on the seed_phase trio/quartet input with all three list options, learn on 1-3 alignments (solver-chosen: unmapped or not, same or new chromosome); "
+                "per output path a solver-chosen pre-state: absent or an existing text file; outputs of the run are compared with those of a run on an empty file system")
+
+    def setup(self):
+        _SmallSeedCheck.setup(self)
+        self.d = {"stats": SeedStats(), "phase": SeedPhase()}
+        for d in self.d.values():
+            d.setup()
+        self._worlds = {}
+
+    # -- learn world ------------------------------------------------------------------------------------------------
+    def _learn_world(self):
+        mode = _caller_open_mode()
+        holder = types.SimpleNamespace(fs=None, alns=[], wrote=0)
+
+        class Caller:
+            def __init__(s, reference, k, window):
+                s.ref = reference
+
+            def all_variants(s, variants):
+                s.variants = list(variants)
+
+            def _emit(s, outfile, line):
+                f = holder.fs.open(outfile.decode("UTF-8"), mode)
+                f.write(line)
+                f.close()
+                holder.wrote += 1
+
+            def add_read(s, pos, cigartuples, query, outfile):
+                s._emit(outfile, "%d\t%s\t%d\n" % (pos, query.decode("UTF-8"), len(s.ref)))
+
+            def final_pop(s, outfile):
+                s._emit(outfile, "final\n")
+
+        class _Ctx:
+            def __enter__(s):
+                return s
+
+            def __exit__(s, *a):
+                return False
+
+        class VariantFile(_Ctx):
+            def __init__(s, path):
+                pass
+
+            def fetch(s):
+                return iter([types.SimpleNamespace(pos=5, ref="A"), types.SimpleNamespace(pos=9, ref="AC")])
+
+        class AlignmentFile(_Ctx):
+            def __init__(s, path, *a, **k):
+                pass
+
+            def __iter__(s):
+                return iter(holder.alns)
+
+        class Fasta(_Ctx, dict):
+            def __init__(s, path, **k):
+                dict.__init__(s, {"c1": "ACGTACGTACGT", "c2": "TTTTGGGGCCCC"})
+
+        pysam_stub = types.SimpleNamespace(VariantFile=VariantFile, AlignmentFile=AlignmentFile)
+        w = SymWorld(overrides={"pysam": pysam_stub, "pyfaidx": types.SimpleNamespace(Fasta=Fasta), "whatshap.core": types.SimpleNamespace(Caller=Caller), "whatshap.cli": types.ModuleType("whatshap.cli")})
+        return dict(mod=w.load("whatshap.cli.learn"), holder=holder, world=w)
+
+    def _world_of(self, cmd):
+        if cmd not in self._worlds:
+            self._worlds[cmd] = self._learn_world() if cmd == "learn" else self.d[cmd]._load_world()
+        return self._worlds[cmd]
+
+    # -- one run under the stubs -------------------------------------------------------------------------------------
+    def _run(self, e, shape, sc, pre):
+        cmd = shape["cmd"]
+        W = self._world_of(cmd)
+        MemFS.PRE = dict(pre)
+        res, exc = {}, None
+        try:
+            if cmd == "learn":
+                fs = MemFS()
+                h = W["holder"]
+                h.fs, h.alns, h.wrote = fs, sc.alns, 0
+                W["mod"].open = fs.open
+                try:
+                    W["mod"].run_learn(reference="ref.fa", bam="in.bam", vcf="in.vcf", k=3, window=1, output="kmers.txt")
+                finally:
+                    res.update(fs.files)
+                    res["<caller writes>"] = h.wrote
+            else:
+                d = self.d[cmd]
+                d.prepare(W, sc)
+                d.invoke(W, sc, shape, res)
+        except Exception as ex:
+            exc = "%s: %s" % (type(ex).__name__, ex)
+        finally:
+            MemFS.PRE = {}
+        res["<exception>"] = exc
+        return res
+
+    def scenario(self, e, shape):
+        cmd = shape["cmd"]
+        if cmd == "stats":
+            return self.d["stats"].scenario(e, shape)
+        if cmd == "phase":
+            return PedScenario(e, shape)
+        alns, chrom = [], "c1"
+        for i in range(shape["nreads"]):
+            unmapped = bool(e.bit("unmapped%d" % i)) if i else False  # a BAM without any mapped alignment makes run_learn fail (no Caller is ever built); not a matter of C16
+            if i and e.bit("newchrom%d" % i):
+                chrom = "c2"
+            seq = "ACGT"[i % 4] * 4
+            alns.append(types.SimpleNamespace(is_unmapped=unmapped, query_alignment_sequence=seq, reference_name=chrom, pos=2 + i, cigartuples=[(0, 4)]))
+            if unmapped:
+                e.cover("learn: alignment skipped")
+        return types.SimpleNamespace(alns=alns, key=lambda: repr([(a.is_unmapped, a.reference_name, a.pos) for a in alns]))
+
+    def harness(self, e, shape, impl):
+        cmd = shape["cmd"]
+        e.cover(cmd)
+        sc = self.scenario(e, shape)
+        pre = {}
+        for name, _ in self.FILES[cmd]:
+            if e.bit("preexisting_%s" % name):
+                pre[name] = STALE_TEXT
+        e.cover("a pre-existing output file" if pre else "no pre-existing file")
+        if impl == "real":
+            return self.real_pair(e, shape, sc, pre)
+        fresh = self._run(e, shape, sc, {})
+        again = self._run(e, shape, sc, pre)
+        if cmd == "learn" and fresh.get("<caller writes>"):
+            e.cover("learn: the caller wrote to the output")
+        e.check(fresh["<exception>"] is None, "the command raised under the stubs: %s" % fresh["<exception>"], lambda: dict(file="<exception>"))
+        for k in sorted(set(fresh) | set(again)):
+            e.check(fresh.get(k) == again.get(k), "output %s depends on what its path held before the run: repeating the command does not reproduce the result" % k,
+                    lambda k=k: dict(file=k, command=cmd, preexisting=sorted(pre), fresh=str(fresh.get(k))[-400:], repeated=str(again.get(k))[-400:]))
+
+    # -- the real CLI --------------------------------------------------------------------------------------------------
+    def real_pair(self, e, shape, sc, pre):
+        cmd = shape["cmd"]
+        key = repr(sorted(shape.items(), key=str)) + sc.key() + repr(sorted(pre))
+        if cmd == "learn":
+            key = "learn" + repr(sorted(pre))  # the real run uses the repository's test data, whatever the stub world's alignments
+        if key not in self._real_cache:
+            tmp = tempfile.mkdtemp(prefix="c16-repeat-", dir="/var/tmp")
+            try:
+                results = []
+                for tag, files in (("fresh", {}), ("again", pre)):
+                    out = os.path.join(tmp, tag)
+                    os.makedirs(out)
+                    real_names = dict(self.FILES[cmd])
+                    for name in files:
+                        open(os.path.join(out, real_names[name]), "w").write(STALE_TEXT)
+                    if cmd == "stats":
+                        r = self.d["stats"].real_run(shape, sc, tmp, out, "0")
+                    elif cmd == "phase":
+                        d = self.d["phase"]
+                        if tag == "fresh":
+                            paths = sc.write_real_files(tmp)
+                        rr = _real_cli(d.real_argv(shape, sc, paths[0], paths[1], paths[2], out), "0", tmp)
+                        r = {"<rc>": rr.returncode, "<stderr>": rr.stderr[-400:] if rr.returncode else ""}
+                        for f in sorted(os.listdir(out)):
+                            r[f] = _strip_cmdline(open(os.path.join(out, f)).read())
+                    else:
+                        data = os.path.join(REPO, "tests", "data", "short-genome", "learn-data")
+                        rr = _real_cli(["learn", "--reference", os.path.join(data, "short_ref.fasta"), "-o", os.path.join(out, "kmers.txt"), os.path.join(data, "short-reads.bam"), os.path.join(data, "variant.vcf")], "0", tmp)
+                        r = {"<rc>": rr.returncode, "<stderr>": rr.stderr[-400:] if rr.returncode else ""}
+                        for f in sorted(os.listdir(out)):
+                            r[f] = open(os.path.join(out, f)).read()
+                    results.append({k: (v.replace(out, "OUT") if isinstance(v, str) else v) for k, v in r.items()})
+                self._real_cache[key] = results
+            finally:
+                shutil.rmtree(tmp, ignore_errors=True)
+        fresh, again = self._real_cache[key]
+        e.check(fresh["<rc>"] == 0, "the real command failed on the materialised input: %s" % fresh.get("<stderr>"), None)
+        for k in sorted(set(fresh) | set(again)):
+            if k in ("<stderr>",):
+                continue
+            e.check(fresh.get(k) == again.get(k), "output %s depends on what its path held before the run: repeating the command does not reproduce the result" % k, None)
+
+    def classify(self, shape, v):
+        return "repeat:%s:%s" % (shape["cmd"], (v.get("info") or {}).get("file", v["msg"]))
+
+
+SUBCHECKS["repeat"] = Repeat()
